@@ -40,7 +40,11 @@ DT = 60
 
 def _base(n_steps):
     sp_sub = (9.0, 21.0, 1200.0, 70.0)
-    t1 = scen.target_eci(10001, *scen.overhead_orbit(START, *sp_sub))
+    p1, v1 = scen.overhead_orbit(START, *sp_sub)
+    t1 = scen.target_eci(10001, p1, v1)
+    # a twin 50 m away from target 10001, propagated just before it: their integrators visit almost (not exactly) the
+    # same instants, so anything cached per-instant across agents shows up as a last-bit change of 10001's truth
+    t0 = scen.target_eci(10000, [p1[0] + 0.03, p1[1] - 0.03, p1[2] + 0.02], v1)
     t2 = scen.target_eci(10002, *scen.overhead_orbit(START, 0.05, 25.0, 35786.0, 90.0), station_keeping=["GEO EW", "GEO NS"])
     s1 = scen.ground_sensor(20001, 10.0, 20.0, fov={"fov_shape": "conic", "cone_angle": 30.0})
     s2 = scen.space_sensor(20002, [0.0, 7500.0, 0.0], [-5.2, 0.0, 5.2], kind="optical")
@@ -48,8 +52,15 @@ def _base(n_steps):
         "scope": "agent_propagation", "scope_instance_id": 10001, "start_time": scen.iso(START + timedelta(seconds=2 * DT + 17)),
         "event_type": "impulse", "thrust_vector": [0.0, 1e-3, 0.0], "thrust_frame": "ntw", "planned": False,
     }]
+    # two targets added while the run is in progress (their truth dynamics are built by Scenario.addTarget)
+    for j, k in ((0, 1), (1, 2)):
+        ev.append({
+            "scope": "scenario_step", "scope_instance_id": 0, "start_time": scen.iso(START + timedelta(seconds=k * DT)),
+            "event_type": "target_addition", "tasking_engine_id": 1,
+            "target_agent": scen.target_eci(10006 + j, *scen.overhead_orbit(START, 10.0 + j, 19.0 + j, 1000.0 + 100 * j, 60.0)),
+        })
     cfg = scen.config(
-        START, n_steps + 1, [scen.engine(1, [t1, t2], [s1, s2])], physics=DT, model="special_perturbations",
+        START, n_steps + 1, [scen.engine(1, [t0, t1, t2], [s1, s2])], physics=DT, model="special_perturbations",
         filter_model="two_body", station_keeping=True, events=ev, seed=11,
         geopotential={"model": "egm96.txt", "degree": 4, "order": 4},
         perturbations={"third_bodies": ["sun", "moon"], "solar_radiation_pressure": True, "general_relativity": False},
@@ -110,7 +121,8 @@ def _variants(n_steps):
         c["engines"][0]["targets"].append(scen.target_eci(10003, *scen.overhead_orbit(START, 12.0, 18.0, 900.0, 45.0)))
 
     var("extra_target", extra_target)
-    var("removed_target", lambda c: c["engines"][0]["targets"].pop(1))
+    var("removed_target", lambda c: c["engines"][0]["targets"].pop(2))
+    var("removed_twin", lambda c: c["engines"][0]["targets"].pop(0))
     var("extra_sensor", lambda c: c["engines"][0]["sensors"].append(scen.ground_sensor(20003, 12.0, 27.0)))
     var("removed_sensor", lambda c: c["engines"][0]["sensors"].pop(1))
 
@@ -122,6 +134,38 @@ def _variants(n_steps):
 
 
 def _run(cfg, plan, choices=()):
+    """``_run_here`` in a forked child: every run starts from the same process image, like a fresh Ray cluster, so
+    module-level state a run leaves behind (caches keyed on epochs, class-level queues) cannot leak into - or mask a
+    dependence in - the run it is compared with.  Within one run all jobs share the process, like one Ray worker."""
+    import os  # noqa: PLC0415
+    import pickle  # noqa: PLC0415
+
+    rfd, wfd = os.pipe()
+    pid = os.fork()
+    if pid == 0:  # child
+        code = 0
+        try:
+            os.close(rfd)
+            out = _run_here(cfg, plan, choices)
+            with os.fdopen(wfd, "wb") as fh:
+                pickle.dump(out, fh, protocol=4)
+        except BaseException as exc:  # noqa: BLE001
+            code = 3
+            try:
+                with os.fdopen(wfd, "wb") as fh:
+                    pickle.dump({"truth": [], "est": [], "rows": {}, "error": f"child: {type(exc).__name__}: {exc}", "n_obs": 0,
+                                 "n_est": 0, "trace": []}, fh, protocol=4)
+            except Exception:  # noqa: BLE001, S110
+                pass
+        os._exit(code)
+    os.close(wfd)
+    with os.fdopen(rfd, "rb") as fh:
+        data = fh.read()
+    os.waitpid(pid, 0)
+    return pickle.loads(data)
+
+
+def _run_here(cfg, plan, choices=()):
     """Run through the public propagateTo API in the consecutive calls of ``plan``; record truth bytes per step."""
     fakeray.MEMO_ENABLED = False
     sc = scen.build(cfg)
